@@ -662,16 +662,24 @@ func (in *Interp) concInt(v value, what string, max int) int64 {
 	for n := 0; n < max; n++ {
 		// ask the solver for some feasible value
 		in.p.nFeasQ++
+		var vals []string
 		in.p.S.Push()
 		r, _ := in.p.S.Check(in.p.X.Lim.FeasMS)
-		if r != smt.Sat {
-			in.p.S.Pop()
-			panic(abortPath{"unknown", "cannot enumerate values of symbolic " + what})
+		if r == smt.Sat {
+			var err error
+			vals, err = in.p.S.Values([]*smt.Term{x.t})
+			if err != nil {
+				r = smt.Unknown
+			}
 		}
-		vals, err := in.p.S.Values([]*smt.Term{x.t})
 		in.p.S.Pop()
-		if err != nil {
-			panic(abortPath{"unknown", "cannot read model for " + what})
+		if r != smt.Sat {
+			// fresh non-incremental solvers
+			var why string
+			r, vals, why, _, _ = smt.Race(in.p.X.raceSolvers(), in.p.pcond, []*smt.Term{x.t}, in.p.X.Lim.ObligMS)
+			if r != smt.Sat {
+				panic(abortPath{"unknown", "cannot enumerate values of symbolic " + what + ": " + why})
+			}
 		}
 		c := bigFromHex(vals[0]).Uint64()
 		k := mkInt(x.bits, x.signed, c)
